@@ -336,8 +336,33 @@ def rank_calls(trace, P, dup=0):
     return out
 
 
+def translate_and_prove(ctx, groups):
+    """T1 + proof obligations: regenerate the translator groups from the working tree, then re-check the theorems (which
+    include `model = generated definition`).  A group that no longer translates, or a theorem that no longer checks against
+    the regenerated definitions, is a broken tie.  coq/Gen is shared by all checks: if another process regenerated the group
+    from another tree while the theorems were being checked, the step is repeated."""
+    sys.path.insert(0, os.path.join(vlib.TOOLS, "c2g"))
+    import genall
+    r = None
+    for attempt in range(3):
+        st = genall.run(list(groups))
+        nb, ob, di = len(ctx.broken), ctx.cov["obligations"], ctx.cov["discharged"]
+        for g, s_ in st.items():
+            ctx.log("c2g", g, s_)
+            if s_.startswith("FAILED"):
+                ctx.tie_broken("translator group " + g, s_)
+        r = ctx.props()
+        st2 = genall.run(list(groups))
+        if not any("(changed)" in v for v in st2.values()):
+            return r
+        ctx.log("coq/Gen was regenerated by another process during the proof step: repeating")
+        del ctx.broken[nb:]
+        ctx.cov["obligations"], ctx.cov["discharged"] = ob, di
+    return r
+
+
 def run(ctx):
-    ctx.props()
+    translate_and_prove(ctx, ["ShmemC14"])
     hsrc = [os.path.join(vlib.TOOLS, "harness", "c14_harness.c"), os.path.join(vlib.TOOLS, "simmpi", "simmpi.c")]
     v = ctx.variant(mpi="sim", san=True, cflags_extra=("-fno-sanitize=nonnull-attribute",),
                     config_defs=("SC_ENABLE_MPICOMMSHARED", "SC_ENABLE_MPIWINSHARED"))
@@ -438,7 +463,8 @@ def run(ctx):
                                           "while other ranks of the node may still hold their SHARED lock; see docs/C14.md" % dist["nocheck_warnings"])
     for c in cases[:: max(1, len(cases) // 4)][:4]:
         ctx.sample(dict(P=c[0], seed=c[1], adversary=c[2], ppn_attach=c[3], ppn_sim=c[4], roundrobin=c[5], flavour=FNAME[c[6]], dtype=TNAME[c[7]], count=c[8]))
-    ctx.cov["trusted_base"] = ["tools/simmpi (simulated MPI: collectives, Comm_split/Comm_split_type, shared windows in one address space, "
+    ctx.cov["trusted_base"] = ["T1: colours / keys of the MPI_Comm_split calls, the write_start / write_end decisions, the slot arithmetic and wrapped sums of sc_scan_on_array and the byte / item counts of the prefix and allgather functions are proved EQUAL to Gen/ShmemC14.v, regenerated from the working tree on every run (tools/c2g + tools/c2g/slicelib.py + clang-14 JSON AST trusted; parsed with tools/simmpi/mpi.h in the configuration the check builds)",
+                               "tools/simmpi (simulated MPI: collectives, Comm_split/Comm_split_type, shared windows in one address space, "
                                "window locks with MPI_MODE_NOCHECK never block) and its trace",
                                "real shared-memory visibility and ordering between processes is outside the model: the simulator runs all ranks in one thread",
                                "MPI_Scan / MPI_Allgather / MPI_Gather return their specified values (collective specifications of C14/ShmemModel.v)"]
